@@ -92,6 +92,9 @@ func (s *swamp) PatchExpired(howMany int32, ops []msgpackpatch.Op, condition *ms
 		if t.GetExpirationTime() == 0 {
 			continue
 		}
+		if s.beaconKey.Get(t.GetKey()) != t {
+			continue // deleted or shifted away since the selection
+		}
 		if s.expirationTimeBeaconDESC.IsInitialized() {
 			s.expirationTimeBeaconDESC.Add(t)
 		}
@@ -114,6 +117,14 @@ func (s *swamp) applyPatchExpiredOne(treasureObj treasure.Treasure, ops []msgpac
 	defer treasureObj.ReleaseTreasureGuard(guardID)
 
 	entry := PatchExpiredEntry{Key: treasureObj.GetKey()}
+
+	// The record was selected under the index lock, without its guard. If it
+	// was deleted or shifted away since, it is no longer the live record of
+	// its key: patching and saving it would bring it back to life.
+	if s.beaconKey.Get(entry.Key) != treasureObj {
+		entry.Status = PatchStatusKeyNotFound
+		return entry
+	}
 
 	switch treasureObj.GetContentType() {
 	case treasure.ContentTypeByteArray:
